@@ -33,6 +33,17 @@ def _pool():
     return groups['prop'] + groups['defn'][:4] + groups['extra'] + groups['gen'][4:8], by_label, defs
 
 
+def _binders(p, acc=None):
+    acc = set() if acc is None else acc
+    if p[0] in ('E', 'M'):
+        acc.add((p[0], p[1])); _binders(p[2], acc)
+    elif p[0] in ('i', 'a'):
+        _binders(p[1], acc); _binders(p[2], acc)
+    elif p[0] in ('es', 'ss'):
+        _binders(p[2], acc); _binders(p[3], acc)
+    return acc
+
+
 @st.composite
 def cases(draw):
     pool, _, defs = _pool()
@@ -61,6 +72,24 @@ def cases(draw):
         fam = draw(st.sampled_from(['imp', 'imp', 'imp', 'nonimp']))
         prem = ('i', l, r) if fam == 'imp' else draw(st.sampled_from([('a', l, r), r]))
         return {'rule': rule, 'level': level, 'fam': fam, 'prem': prem, 'x': x}
+    if draw(st.integers(0, 3)) == 0:
+        # directed: a pending substitution on x_k (X_k) over a metavariable that delta replaces by an application of a notation
+        # whose body *binds* that very variable around its argument, the argument mentioning it free
+        groups, _, _ = notations.registry()
+        binders = groups['gen'][0:6] + groups['extra'][2:4] + groups['wide'][2:5]
+        n = draw(st.sampled_from(binders))
+        d = R.from_repo(n.definition)
+        bound = sorted(_binders(d))
+        kind, k = draw(st.sampled_from(bound))
+        var = ('e', k) if kind == 'E' else ('s', k)
+        i = draw(st.sampled_from(CFG.ids))
+        arg = lambda: draw(st.sampled_from([var, ('a', ('y', 0), var), ('i', var, ('m', draw(st.sampled_from(CFG.ids)), (), (), (), (), ())), sug(1)]))
+        value = ('n', n, tuple(arg() for _ in range(n.arity)))
+        mv = ('m', i, (), (), (), (), ())
+        pend = ('es' if kind == 'E' else 'ss', k, mv, sug(1))
+        conc = draw(st.sampled_from([('i', mv, pend), ('i', pend, sug(1)), pend, ('i', ('n', n, tuple(mv for _ in range(n.arity))), pend)]))
+        delta = [(i, value)] + [(j, sug(1)) for j in draw(st.lists(st.sampled_from([x for x in CFG.ids if x != i]), max_size=1))]
+        return {'rule': rule, 'level': level, 'fam': 'inst', 'conc': conc, 'delta': delta, 'directed': 'binder-notation'}
     conc = sug(3)
     keys = draw(st.lists(st.sampled_from(CFG.ids), max_size=3, unique=True))
     delta = [(k, sug(2)) for k in keys]
